@@ -148,14 +148,25 @@ func c07Pair(r *rt.Rec, lib *dilithium.Dilithium, ref *dilref.Key, seed [48]byte
 	firstSealed, err := lib.Seal(m2)
 	if err == nil {
 		keep := append([]byte(nil), firstSealed...)
-		for i := range firstSealed {
+		pkk := lib.GetPK()
+		// (1) only the signature half is overwritten (the message half still reads m2)
+		for i := 0; i < dilithium.CryptoBytes; i++ {
 			firstSealed[i] ^= 0x5A
 		}
 		again, _ := lib.Seal(m2)
 		sgn, _ := lib.Sign(m2)
-		pkk := lib.GetPK()
 		if !bytes.Equal(again, keep) || !bytes.Equal(sgn[:], keep[:dilithium.CryptoBytes]) || !dilithium.Verify(m2, sgn, &pkk) {
-			r.Violate("C07/aliased-buffer", "after the caller overwrote the slice returned by the first Seal of a message, sealing / signing the same message again gives a different result", c07Case{"c07pair", cs.Seed, rt.Hex(m2)}, "", "")
+			r.Violate("C07/aliased-buffer", "after the caller overwrote the signature half of the slice returned by the first Seal of a message, sealing / signing the same message again gives a different result", c07Case{"c07pair", cs.Seed, rt.Hex(m2)}, "", "")
+			return false
+		}
+		// (2) the message half is overwritten with another message of the same length, which is then signed
+		m3 := append([]byte(nil), m2...)
+		m3[len(m3)-1] = '%'
+		copy(dilithium.ExtractMessage(firstSealed), m3)
+		copy(dilithium.ExtractMessage(again), m3)
+		sg3, _ := lib.Sign(m3)
+		if !dilithium.Verify(m3, sg3, &pkk) || bytes.Equal(sg3[:], keep[:dilithium.CryptoBytes]) {
+			r.Violate("C07/aliased-buffer", "after the caller rewrote the message half of a slice returned by Seal, signing that other message returns the earlier message's signature", c07Case{"c07pair", cs.Seed, rt.Hex(m3)}, "", "")
 			return false
 		}
 		r.Count("seal_first_then_overwrite_then_repeat", 1)
